@@ -177,6 +177,9 @@ fn valid_elem<B: Backend>(what: &str, e: &B::E, ctx: &mut Ctx) -> Result<(), Fai
     if !B::is_identity(&re) {
         ctx.report(format!("C06|{what}|r-times-not-identity"), format!("{what}: r*E is not the identity"))?;
     }
+    if let Err(why) = B::self_check(e) {
+        ctx.report(format!("C06|{what}|own-validity-check-rejects"), format!("{what}: a valid element is rejected by the library's own validity predicate: {why}"))?;
+    }
     Ok(())
 }
 
